@@ -120,6 +120,8 @@ pub enum TAct {
     Stash(OpId),
     /// Block until the op has started running
     WaitStart(OpId),
+    /// Block until the monitor has observed the whole process quiet and has evaluated the mid-run pipe conditions
+    Checkpoint,
 }
 
 /// What the firer thread does, in sequence, with a small seeded pause before each
@@ -213,13 +215,15 @@ pub struct Program {
     pub hold_wait_threads: Option<Vec<usize>>,
     /// (hold phase) operations whose call must have been invoked before any hold is opened
     pub hold_wait_invoked: Vec<OpId>,
+    /// Hold used by `TAct::Checkpoint`
+    pub checkpoint_hold: Option<usize>,
 }
 
 impl Program {
     pub fn new(run_seed: u64, profile: &'static str, template: &'static str) -> Program {
         Program {
             run_seed, profile, template, pool: 1, pool_mode: PoolMode::Warm, n_obj: 1, mortal: None, ops: vec![], threads: vec![], n_gates: 0,
-            n_holds: 0, fire: vec![], pusher: vec![], prefired: vec![], stale_wakes: false, pipes: vec![], hold_phase: false, held_objs: vec![], panics: false, phases: vec![], hold_groups: vec![], hold_wait_threads: None, hold_wait_invoked: vec![],
+            n_holds: 0, fire: vec![], pusher: vec![], prefired: vec![], stale_wakes: false, pipes: vec![], hold_phase: false, held_objs: vec![], panics: false, phases: vec![], hold_groups: vec![], hold_wait_threads: None, hold_wait_invoked: vec![], checkpoint_hold: None,
         }
     }
 
@@ -311,7 +315,7 @@ fn tact_code(a: &TAct) -> u64 {
     match a {
         TAct::Op(o) => 10_000 + *o as u64, TAct::Join(o) => 20_000 + *o as u64, TAct::DropHeld(o) => 30_000 + *o as u64,
         TAct::Resume(o, b) => 40_000 + *o as u64 * 2 + *b as u64, TAct::HandResumer(o) => 50_000 + *o as u64, TAct::ReleaseMortal => 7,
-        TAct::PipeCreate(p) => 60_000 + *p as u64, TAct::Consume(p, n) => 70_000 + (*p as u64) * 100 + (*n as u64 % 97), TAct::DropStream(p) => 80_000 + *p as u64, TAct::Push(p) => 90_000 + *p as u64, TAct::Attempt(k, o) => 95_000 + *k as u64 * 10 + *o as u64, TAct::AttemptJoin(o) => 96_000 + *o as u64, TAct::Stash(o) => 97_000 + *o as u64, TAct::WaitStart(o) => 98_000 + *o as u64,
+        TAct::PipeCreate(p) => 60_000 + *p as u64, TAct::Consume(p, n) => 70_000 + (*p as u64) * 100 + (*n as u64 % 97), TAct::DropStream(p) => 80_000 + *p as u64, TAct::Push(p) => 90_000 + *p as u64, TAct::Attempt(k, o) => 95_000 + *k as u64 * 10 + *o as u64, TAct::AttemptJoin(o) => 96_000 + *o as u64, TAct::Stash(o) => 97_000 + *o as u64, TAct::WaitStart(o) => 98_000 + *o as u64, TAct::Checkpoint => 99_000,
     }
 }
 
